@@ -17,7 +17,7 @@ RULE = (
     "fill_value None/scalar/total/partial mapping) x one xgcm.padding.pad call with per-call spellings and asymmetric "
     "widths 0..n per axis (axes optionally omitted), extra dims, shuffled dim order. Oracle: resolution model + "
     "hand-written wrap/constant/edge extension; interior and single-axis halo cells strict, corner cells must equal one "
-    "of the sequential orders; scalar vs total-mapping spellings (call and constructor) must agree bit-for-bit. Class = "
+    "of the sequential orders; in a third of the cases the same option objects are then used on a second grid with other settings (judged by that grid's rules); scalar vs total-mapping spellings (call and constructor) must agree bit-for-bit. Class = "
     "per-axis (rule, source of rule, lower>0, upper>0, width>=n), #axes; non-trivial iff some width > 0."
 )
 REQUIRED_REACH = [
@@ -139,7 +139,11 @@ def run_case(ctx, desc):
     dt = desc["data"].get("dtype2", "float64")
     if dt != "float64":
         da = abs(da.round()).astype(dt) if dt == "uint64" else da.round().astype(dt)
-    kw = {k: call[k] for k in ("boundary", "fill_value") if k in call}
+    import copy
+
+    # the library is handed its own option objects (the same ones over all calls of this case, as a user's would be);
+    # the model reads the descriptor
+    kw = copy.deepcopy({k: call[k] for k in ("boundary", "fill_value") if k in call})
     rules = {a: resolve.in_force(a, desc["ctor"], call) for a in bw}
     src = {}
     for a in bw:
@@ -194,6 +198,28 @@ def run_case(ctx, desc):
         ctx.judged(("corner",) + tuple(map(tuple, ckey)), True)
         if not ok:
             ctx.violation("pad-corner", f"corner cells match no sequential order; rules {rules} widths {bw}")
+            return
+    # the very same option objects on a second grid whose own settings differ: what the per-call options leave open comes
+    # from the grid of *this* call
+    if desc["data"]["seed"] % 3 == 0 and not isinstance(desc["ctor"]["periodic"], list):
+        c1 = desc["ctor"]
+        rot = lambda v: gen.RULES[(gen.RULES.index(v) + 1) % len(gen.RULES)]  # noqa: E731
+        b1, f1 = c1.get("boundary"), c1.get("fill_value")
+        ctor2 = {"periodic": {a: not resolve.is_periodic(c1["periodic"], a) for a in axn},
+                 "boundary": {a: (rot(v) if v is not None else None) for a, v in b1.items()} if isinstance(b1, dict) else (rot(b1) if b1 is not None else None),
+                 "fill_value": {a: (v + 1 if v is not None else None) for a, v in f1.items()} if isinstance(f1, dict) else (f1 + 1 if f1 is not None else 4)}
+        d2 = dict(desc, ctor=ctor2)
+        ctx.judged(("second-grid",) + tuple(map(tuple, ckey)), nontrivial)
+        try:
+            _, gB = c01.make_grid(d2)
+            rB = pad(da, gB, dict(bw), **kw)
+            expB = model(d2, da.values, da.dims, order)
+            gotB = rB.transpose(*da.dims).values
+            if gotB.shape != expB.shape or not np.array_equal(gotB[~corner], expB[~corner]):
+                ctx.violation("pad-halo", f"the same per-call options {kw} on a second grid {ctor2} (after a call on {c1}): halo differs from that grid's rules")
+                return
+        except Exception as e:
+            ctx.violation("pad-returns", f"pad on a second grid {ctor2} with the same option objects raised {type(e).__name__}: {str(e)[:200]}")
             return
     # interchangeable spellings: scalar call args re-spelled as total mappings
     kw2 = dict(kw)
